@@ -175,4 +175,15 @@ _ADDENDA6 = {
 for _k, _v in _ADDENDA6.items():
     CLAIMS[_k]["text"] += _v
 
+# Round 7
+_ADDENDA7 = {
+    "C02": " Sources in which one name / keyword-like token occurs at many places (nodes are never shared between occurrences).",
+    "C07": " Whole-number floats at and beyond the 32-bit edges through variables at 8 Int positions (int_whole_floats).",
+    "C13": " An object implementing two interfaces that declare the same field: messages for the pair == union of the messages for each alone (two_interfaces).",
+    "C15": " Type references with up to 7 wrappers read back from the standard introspection query (deep_wrappers).",
+    "C20": " Several unions sharing members: every single / double membership flip (multi_unions).",
+}
+for _k, _v in _ADDENDA7.items():
+    CLAIMS[_k]["text"] += _v
+
 NOT_APPLICABLE = {}
